@@ -18,7 +18,7 @@ Definition oall (P : prog -> bool) (o : option prog) : bool := match o with Some
 (* no contract call of any kind (native calls included) *)
 Fixpoint nocalls (p : prog) : bool :=
   match p with
-  | NotifyFee | SetFee _ | Move _ _ _ | MoveNeo _ _ _ | Call _ _ _ => false
+  | NotifyFee | SetFee _ | Move _ _ _ | MoveNeo _ _ _ | CallV _ _ _ _ => false
   | Seq p q => nocalls p && nocalls q
   | Try b c f => nocalls b && oall nocalls c && oall nocalls f
   | _ => true
@@ -27,7 +27,7 @@ Fixpoint nocalls (p : prog) : bool :=
 (* every Call of this contract invocation stands inside a try BODY (so it gets its own layer) *)
 Fixpoint bare_free (p : prog) : bool :=
   match p with
-  | Call _ _ _ => false
+  | CallV _ _ _ _ => false
   | Seq p q => bare_free p && bare_free q
   | Try b c f => oall bare_free c && oall bare_free f
   | _ => true
@@ -38,7 +38,7 @@ Fixpoint g2 (p : prog) : bool :=
   match p with
   | Move _ _ cb | MoveNeo _ _ cb => g2 cb
   | Seq p q => g2 p && g2 q
-  | Call _ _ body => g2 body
+  | CallV _ _ _ body => g2 body
   | Try b c f => g2 b && oall g2 c && oall nocalls f
   | _ => true
   end.
@@ -48,7 +48,7 @@ Fixpoint g1 (p : prog) : bool :=
   match p with
   | Move _ _ cb | MoveNeo _ _ cb => g1 cb
   | Seq p q => g1 p && g1 q
-  | Call _ _ body => g1 body
+  | CallV _ _ _ body => g1 body
   | Try b c f => g1 b && oall g1 c && oall g1 f &&
                  (match c, f with Some c', Some _ => bare_free c' | _, _ => true end)
   | _ => true
@@ -203,7 +203,7 @@ Proof. destruct w; reflexivity. Qed.
 
 Lemma exec_exc pol p : forall cid fl it, excd (exec pol p cid fl it).
 Proof.
-  induction p as [| | | | | |to amt cb IHcb|to amt cb IHcb| |p1 p2 IHp1 IHp2|c rf body IHbody|b c f IHb IHc IHf| |] using prog_ind';
+  induction p as [| | | | | |to amt cb IHcb|to amt cb IHcb| |p1 p2 IHp1 IHp2|via c rf body IHbody|b c f IHb IHc IHf| |] using prog_ind';
     intros cid cf it s; cbn [exec]; auto; try (case_if; simpl; auto; fail).
   - (* Move *)
     case_if; auto. cbv zeta. case_if. { simpl. rewrite unload_exc. destruct (wrapped it cf); auto. }
@@ -276,7 +276,7 @@ Qed.
 
 Lemma exec_ro pol p : forall cid fl it, ro fl = true -> pres (exec pol p cid fl it).
 Proof.
-  induction p as [| | | | | |to amt cb IHcb|to amt cb IHcb| |p1 p2 IHp1 IHp2|c rf body IHbody|b c f IHb IHc IHf| |] using prog_ind';
+  induction p as [| | | | | |to amt cb IHcb|to amt cb IHcb| |p1 p2 IHp1 IHp2|via c rf body IHbody|b c f IHb IHc IHf| |] using prog_ind';
     intros cid cf it R s; simpl; auto;
     try (rewrite ?(ro_W _ R), ?(ro_N _ R), ?(ro_All _ R), ?andb_false_r; simpl; auto; fail).
   - (* Seq *)
@@ -399,7 +399,7 @@ Ltac fin_bad B :=
 
 Lemma exec_mono pol p : forall cid fl it, mono (exec pol p cid fl it).
 Proof.
-  induction p as [| | | | | |to amt cb IHcb|to amt cb IHcb| |p1 p2 IHp1 IHp2|c rf body IHbody|b c f IHb IHc IHf| |] using prog_ind';
+  induction p as [| | | | | |to amt cb IHcb|to amt cb IHcb| |p1 p2 IHp1 IHp2|via c rf body IHbody|b c f IHb IHc IHf| |] using prog_ind';
     intros cid cf it s B; cbn [exec]; auto; try (case_if; simpl; auto; fail).
   - (* Move *)
     case_if; [|simpl; auto]. cbv zeta. case_if. { fin_bad B. }
@@ -546,7 +546,7 @@ Qed.
 
 Lemma guard_seq pol p q : guard pol (Seq p q) = true -> guard pol p = true /\ guard pol q = true.
 Proof. unfold guard. simpl. destruct pol; rewrite ?andb_true_iff; tauto. Qed.
-Lemma guard_call pol c f b : guard pol (Call c f b) = true -> guard pol b = true.
+Lemma guard_call pol via c f b : guard pol (CallV via c f b) = true -> guard pol b = true.
 Proof. auto. Qed.
 Lemma guard_move pol to amt cb : guard pol (Move to amt cb) = true -> guard pol cb = true.
 Proof. auto. Qed.
@@ -571,7 +571,7 @@ Proof. destruct it, a, b; simpl; auto. Qed.
 Theorem exec_sim pol p :
   guard pol p = true -> forall cid fl it, simP (it || bare_free p) (exec pol p cid fl it) (iexec p cid fl).
 Proof.
-  induction p as [| | | | | |to amt cb IHcb|to amt cb IHcb| |p1 p2 IHp1 IHp2|c rf body IHbody|b c f IHb IHc IHf| |] using prog_ind';
+  induction p as [| | | | | |to amt cb IHcb|to amt cb IHcb| |p1 p2 IHp1 IHp2|via c rf body IHbody|b c f IHb IHc IHf| |] using prog_ind';
     intros G cid cf it s H B; cbn [exec iexec] in *.
   - reflexivity.
   - case_if; simpl; auto. rewrite abs_put; auto.
@@ -694,7 +694,7 @@ Proof.
     set (fe := N.land cf rf) in *. set (w := wrapped it fe) in *. destruct (ne_cons s H) as (t & rest & E).
     destruct (enter_lay w s t rest E) as (E1 & E2 & E3).
     assert (N1 : ne (enter w s)) by (unfold ne; rewrite E1; discriminate).
-    pose proof (IHbody (guard_call _ _ _ _ G) c fe false _ N1) as IH. rewrite abs_enter in IH.
+    pose proof (IHbody (guard_call _ _ _ _ _ G) c fe false _ N1) as IH. rewrite abs_enter in IH.
     pose proof (exec_exc pol body c fe false (enter w s)) as XX.
     pose proof (exec_frame pol body c fe false _ _ _ E1) as FR. rewrite E2 in FR.
     pose proof (fun R => exec_ro pol body c fe false R (enter w s)) as PR.
@@ -792,29 +792,29 @@ Definition obs_eq (r r' : res) : Prop :=
   | _, _ => False
   end.
 
-Definition caught (c f : N) (body : prog) : prog := Try (Call c f body) (Some Skip) None.
+Definition caught (via : bool) (c f : N) (body : prog) : prog := Try (CallV via c f body) (Some Skip) None.
 
 Lemma exec_seq_normal pol p q cid fl it s s1 :
   exec pol p cid fl it s = Normal s1 -> exec pol (Seq p q) cid fl it s = exec pol q cid fl it s1.
 Proof. intros E. cbn [exec]. rewrite E. reflexivity. Qed.
 
-Lemma exec_caught_thrown pol c f body cid fl it s1 s2 :
-  exec pol (Call c f body) cid fl true s1 = Thrown s2 ->
-  exec pol (caught c f body) cid fl it s1 = Normal (set_exc s2 false).
+Lemma exec_caught_thrown pol via c f body cid fl it s1 s2 :
+  exec pol (CallV via c f body) cid fl true s1 = Thrown s2 ->
+  exec pol (caught via c f body) cid fl it s1 = Normal (set_exc s2 false).
 Proof.
   intros E.
-  change (exec pol (caught c f body) cid fl it s1)
-    with (try_of (exec pol (Call c f body) cid fl true) (Some (exec pol Skip cid fl (catch_it pol it false))) None s1).
+  change (exec pol (caught via c f body) cid fl it s1)
+    with (try_of (exec pol (CallV via c f body) cid fl true) (Some (exec pol Skip cid fl (catch_it pol it false))) None s1).
   unfold try_of. cbn [is_some orb]. rewrite E. reflexivity.
 Qed.
 
-Theorem caught_call_no_trace pol pre post c f body cid fl it s :
-  guard pol (Seq pre (Seq (caught c f body) post)) = true ->
+Theorem caught_call_no_trace pol pre post via c f body cid fl it s :
+  guard pol (Seq pre (Seq (caught via c f body) post)) = true ->
   ne s -> exc s = false ->
-  (forall s1, exec pol pre cid fl it s = Normal s1 -> exists s2, exec pol (Call c f body) cid fl true s1 = Thrown s2) ->
-  bad (rstate (exec pol (Seq pre (Seq (caught c f body) post)) cid fl it s)) = false ->
+  (forall s1, exec pol pre cid fl it s = Normal s1 -> exists s2, exec pol (CallV via c f body) cid fl true s1 = Thrown s2) ->
+  bad (rstate (exec pol (Seq pre (Seq (caught via c f body) post)) cid fl it s)) = false ->
   bad (rstate (exec pol (Seq pre post) cid fl it s)) = false ->
-  obs_eq (exec pol (Seq pre (Seq (caught c f body) post)) cid fl it s) (exec pol (Seq pre post) cid fl it s).
+  obs_eq (exec pol (Seq pre (Seq (caught via c f body) post)) cid fl it s) (exec pol (Seq pre post) cid fl it s).
 Proof.
   intros G H X T BP BQ.
   assert (GQ : guard pol (Seq pre post) = true).
@@ -822,19 +822,19 @@ Proof.
     unfold guard in *. simpl. destruct pol; rewrite ?andb_true_iff in *; tauto. }
   pose proof (exec_sim pol _ G cid fl it s H BP) as SP.
   pose proof (exec_sim pol _ GQ cid fl it s H BQ) as SQ.
-  assert (EQ : iexec (Seq pre (Seq (caught c f body) post)) cid fl (abs s) = iexec (Seq pre post) cid fl (abs s)).
+  assert (EQ : iexec (Seq pre (Seq (caught via c f body) post)) cid fl (abs s) = iexec (Seq pre post) cid fl (abs s)).
   { apply guard_seq in G. destruct G as [G1 G2]. apply guard_seq in G2. destruct G2 as [G2 _].
     pose proof (exec_ne pol pre cid fl it s H) as N1. pose proof (exec_exc pol pre cid fl it s) as X1.
     destruct (exec pol pre cid fl it s) as [s1|s1|s1] eqn:EP.
     - destruct (T s1 eq_refl) as (s2 & T2).
       rewrite (exec_seq_normal _ _ _ _ _ _ _ _ EP) in BP. rewrite (exec_seq_normal _ _ _ _ _ _ _ _ EP) in BQ.
-      rewrite (exec_seq_normal _ _ _ _ _ _ _ _ (exec_caught_thrown pol c f body cid fl it s1 s2 T2)) in BP.
+      rewrite (exec_seq_normal _ _ _ _ _ _ _ _ (exec_caught_thrown pol via c f body cid fl it s1 s2 T2)) in BP.
       assert (BC : bad s2 = false).
       { apply (mono_inv (exec pol post cid fl it)) in BP; [exact BP|apply exec_mono]. }
       assert (B1 : bad s1 = false).
       { apply (mono_inv (exec pol post cid fl it)) in BQ; [exact BQ|apply exec_mono]. }
       pose proof (exec_sim pol pre G1 cid fl it s H) as S1. rewrite EP in S1. specialize (S1 B1). simpl in S1.
-      assert (GC : guard pol (Call c f body) = true).
+      assert (GC : guard pol (CallV via c f body) = true).
       { unfold guard, caught in *. simpl in G2. destruct pol; rewrite ?andb_true_iff in *; simpl; rewrite ?andb_true_iff; tauto. }
       pose proof (exec_sim pol _ GC cid fl true s1 N1) as SC. rewrite T2 in SC. specialize (SC BC).
       unfold caught. cbn [iexec] in *.
@@ -853,7 +853,7 @@ Proof.
       pose proof (exec_sim pol pre G1 cid fl it s H) as S1. rewrite EP in S1. specialize (S1 BQ). simpl in S1.
       cbn [iexec]. destruct (iexec pre cid fl (abs s)); try tauto. }
   rewrite EQ in SP.
-  destruct (exec pol (Seq pre (Seq (caught c f body) post)) cid fl it s),
+  destruct (exec pol (Seq pre (Seq (caught via c f body) post)) cid fl it s),
            (exec pol (Seq pre post) cid fl it s),
            (iexec (Seq pre post) cid fl (abs s)); simpl in *; try tauto.
   congruence.
